@@ -140,6 +140,8 @@ type workload struct {
 	pnMu     sync.Mutex
 	pace     time.Duration // pause after every acknowledged operation (keeps the log short, so that restarts replay quickly)
 	noLists  bool          // never create list values (a snapshot of a list kills the node: KF-C08-01 would hide everything else)
+	rate     float64       // if > 0: operations started per second over all clients (a node re-applies its whole log on restart and logs quadratically, so the log length bounds the recovery time)
+	issued   int64
 }
 
 func (w *workload) now() int64 { return time.Since(w.start).Nanoseconds() }
@@ -238,6 +240,12 @@ func (w *workload) client(node int, seed int64, wg *sync.WaitGroup) {
 				cmd = respc.Cmd("SET", ownKey, uniq)
 			default:
 				cmd, key = w.genOp(r, uniq)
+			}
+			if w.rate > 0 {
+				for atomic.LoadInt32(&w.stop) == 0 && atomic.LoadInt64(&w.issued) >= int64(w.rate*time.Since(w.start).Seconds()/12)*12 { // admitted in bursts of 12, so that operations overlap
+					time.Sleep(2 * time.Millisecond)
+				}
+				atomic.AddInt64(&w.issued, 1)
 			}
 			call := w.now()
 			v, err := cl.DoB(cmd)
@@ -463,6 +471,23 @@ func quiesce(c *cluster.Cluster, led *ledger, tag string, limit time.Duration) (
 	return true, ""
 }
 
+// clusterDiag says, for an inconclusive run, what each node was doing (the last lines of its output).
+func clusterDiag(c *cluster.Cluster) string {
+	var b strings.Builder
+	for _, nd := range c.Nodes {
+		state := "running"
+		if nd.Srv == nil || nd.Srv.Exited() {
+			state = "exited"
+		}
+		lines := strings.Split(strings.TrimSpace(tailN(c.NodeLog(nd.ID, 3000), 600)), "\n")
+		if len(lines) > 3 {
+			lines = lines[len(lines)-3:]
+		}
+		fmt.Fprintf(&b, "; node %d %s: %s", nd.ID, state, strings.Join(lines, " / "))
+	}
+	return b.String()
+}
+
 func crashClass(s string) string {
 	switch {
 	case strings.Contains(s, "encountered a cycle"):
@@ -590,6 +615,7 @@ func scenarioC07(o *common.Opts, idx int, st *stats, n int, race bool) string {
 		return "cluster did not become writable"
 	}
 	w := newWorkload(c)
+	w.rate = 400
 	wg := w.run(o.Pick(2, 3), o.Seed*7919+int64(idx))
 	r := rand.New(rand.NewSource(o.Seed*104729 + int64(idx)))
 	actions := o.Pick(4, 8)
@@ -651,9 +677,9 @@ func scenarioC07(o *common.Opts, idx int, st *stats, n int, race bool) string {
 	atomic.StoreInt32(&w.stop, 1)
 	wg.Wait()
 	st.open += int(w.timeouts)
-	ok, why := quiesce(c, w.led, "c07", 90*time.Second)
+	ok, why := quiesce(c, w.led, "c07", 240*time.Second)
 	if !ok && why == "cluster did not serve writes within the bound" {
-		return why
+		return why + clusterDiag(c)
 	}
 	checkLinearizable(w, st, "c07")
 	if race {
@@ -872,7 +898,7 @@ func main() {
 			n    int
 			race bool
 		}
-		jobs := []job{{3, false}}
+		jobs := []job{{3, false}, {3, false}}
 		if o.Thorough() {
 			jobs = []job{{3, false}, {3, true}, {5, false}, {3, false}, {5, true}, {3, false}}
 		}
@@ -886,7 +912,7 @@ func main() {
 				why := ""
 				for try := 0; try < 3; try++ {
 					why = scenarioC07(o, i*10+try, local, j.n, j.race && os.Getenv("RG_SERVER_BIN_RACE") != "")
-					if why != "cluster did not become writable" && !strings.HasPrefix(why, "start: ") {
+					if why != "cluster did not become writable" && !strings.HasPrefix(why, "start: ") && !strings.HasPrefix(why, "cluster did not serve writes within the bound") {
 						break
 					}
 				}
